@@ -80,7 +80,7 @@ def main(argv):
                "only by the corpus entries.")
     ck.assumptions = ["LP64, two's complement, IEEE-754 binary32/64", "glibc printf/scanf rounding (round-half-even on the exact value)",
                       "json text reaches the parser as a NUL-terminated buffer (std::string::c_str())"]
-    ck.translate(["gen_hash"])
+    ck.translate(["gen_hash", "gen_json"])
     ck.prove("C24")
     hb = ck.harness("h_json")
     db = ck.driver("drv_json")
